@@ -578,6 +578,29 @@ func (t *ZeroAllocTokenizer) TokenizeHtmlPreserving() ([]Token, error) {
 	return t.result, nil
 }
 
+// indexKeyword returns the byte offset of the first case-insensitive occurrence of the ASCII
+// keyword in s, or -1. (strings.ToLower changes the byte length of invalid UTF-8 and of some
+// letters, so offsets found in the lowered string do not apply to s.)
+func indexKeyword(s, keyword string) int {
+	for i := 0; i+len(keyword) <= len(s); i++ {
+		j := 0
+		for j < len(keyword) {
+			c := s[i+j]
+			if c >= 'A' && c <= 'Z' {
+				c += 'a' - 'A'
+			}
+			if c != keyword[j] {
+				break
+			}
+			j++
+		}
+		if j == len(keyword) {
+			return i
+		}
+	}
+	return -1
+}
+
 // processBlockTag handles specialized block tag tokenization
 func (t *ZeroAllocTokenizer) processBlockTag(content string) {
 	// Extract the tag name
@@ -611,7 +634,7 @@ func (t *ZeroAllocTokenizer) processBlockTag(content string) {
 
 	case "for":
 		// Process for loop with iterator(s) and collection
-		inPos := strings.Index(strings.ToLower(blockContent), " in ")
+		inPos := indexKeyword(blockContent, " in ")
 		if inPos != -1 {
 			iterators := strings.TrimSpace(blockContent[:inPos])
 			collection := strings.TrimSpace(blockContent[inPos+4:])
@@ -705,7 +728,7 @@ func (t *ZeroAllocTokenizer) processBlockTag(content string) {
 
 	case "include":
 		// Handle include with template path and optional context
-		withPos := strings.Index(strings.ToLower(blockContent), " with ")
+		withPos := indexKeyword(blockContent, " with ")
 		if withPos != -1 {
 			templatePath := strings.TrimSpace(blockContent[:withPos])
 			contextExpr := strings.TrimSpace(blockContent[withPos+6:])
@@ -739,7 +762,7 @@ func (t *ZeroAllocTokenizer) processBlockTag(content string) {
 	case "from":
 		// Handle from tag which has a special format:
 		// {% from "template.twig" import macro1, macro2 as alias %}
-		importPos := strings.Index(strings.ToLower(blockContent), " import ")
+		importPos := indexKeyword(blockContent, " import ")
 		if importPos != -1 {
 			// Extract template path and macros list
 			templatePath := strings.TrimSpace(blockContent[:importPos])
@@ -757,7 +780,7 @@ func (t *ZeroAllocTokenizer) processBlockTag(content string) {
 				macro = strings.TrimSpace(macro)
 
 				// Check for "as" alias
-				asPos := strings.Index(strings.ToLower(macro), " as ")
+				asPos := indexKeyword(macro, " as ")
 				if asPos != -1 {
 					// Extract macro name and alias
 					macroName := strings.TrimSpace(macro[:asPos])
@@ -792,7 +815,7 @@ func (t *ZeroAllocTokenizer) processBlockTag(content string) {
 	case "import":
 		// Handle import tag which allows importing entire templates
 		// {% import "template.twig" as alias %}
-		asPos := strings.Index(strings.ToLower(blockContent), " as ")
+		asPos := indexKeyword(blockContent, " as ")
 		if asPos != -1 {
 			// Extract template path and alias
 			templatePath := strings.TrimSpace(blockContent[:asPos])
